@@ -125,7 +125,8 @@ Inductive sli_step :=
 | SliLabel (l : label) (st : option (N * N))   (* next (start, segment); None = fused *)
 | SliFuel.
 
-Fixpoint sli_loop (fuel : nat) (m : bytes) (start seg : N) : sli_step :=
+(* ml = m.len(), computed once by the caller *)
+Fixpoint sli_loop (fuel : nat) (m : bytes) (ml : N) (start seg : N) : sli_step :=
   match fuel with
   | O => SliFuel
   | S f =>
@@ -133,7 +134,7 @@ Fixpoint sli_loop (fuel : nat) (m : bytes) (start seg : N) : sli_step :=
       | None => SliEnd                                        (* ShortInput *)
       | Some h =>
           if h <=? 63 then
-            if mlen m <? start + h + 1 then SliEnd             (* ShortInput *)
+            if ml <? start + h + 1 then SliEnd                 (* ShortInput *)
             else SliLabel (slice m (start + 1) (start + 1 + h))
                           (if h =? 0 then None else Some (start + h + 1, seg))
           else if 192 <=? h then
@@ -142,45 +143,45 @@ Fixpoint sli_loop (fuel : nat) (m : bytes) (start seg : N) : sli_step :=
             | Some c =>
                 let p := c + 256 * (h mod 64) in
                 if (if sli_ptr_ge_segment then seg <=? p else seg <? p) then SliEnd
-                else sli_loop f m p p
+                else sli_loop f m ml p p
             end
           else SliEnd                                          (* BadType *)
       end
   end.
 
-Definition sli_next (m : bytes) (st : option (N * N)) : sli_step :=
+Definition sli_next (m : bytes) (ml : N) (st : option (N * N)) : sli_step :=
   match st with
   | None => SliEnd
   | Some (start, seg) =>
-      if mlen m <=? start then SliEnd else sli_loop (S (N.to_nat seg)) m start seg
+      if ml <=? start then SliEnd else sli_loop (S (N.to_nat seg)) m ml start seg
   end.
 
 Definition label_eq (a b : label) : bool :=
   if label_eq_ignores_case then eq_ci a b else false.
 
 (* Iterator::eq(name labels incl. root, Label::iter_slice(buf, pos)) *)
-Fixpoint labels_eq_sli (a : list label) (m : bytes) (st : option (N * N)) : option bool :=
+Fixpoint labels_eq_sli (a : list label) (m : bytes) (ml : N) (st : option (N * N)) : option bool :=
   match a with
-  | [] => match sli_next m st with
+  | [] => match sli_next m ml st with
           | SliEnd => Some true | SliLabel _ _ => Some false | SliFuel => None end
   | x :: a' =>
-      match sli_next m st with
+      match sli_next m ml st with
       | SliEnd => Some false
       | SliFuel => None
-      | SliLabel y st' => if label_eq x y then labels_eq_sli a' m st' else Some false
+      | SliLabel y st' => if label_eq x y then labels_eq_sli a' m ml st' else Some false
       end
   end.
 
 (* ------------------------------------------------------- StaticCompressor *)
 
-Fixpoint static_get (m : bytes) (es : list N) (q : name) : option (option N) :=  (* None = fuel *)
+Fixpoint static_get (m : bytes) (ml : N) (es : list N) (q : name) : option (option N) :=  (* None = fuel *)
   match es with
   | [] => Some None
   | e :: es' =>
-      match labels_eq_sli (q ++ [[]]) m (Some (e, e)) with
+      match labels_eq_sli (q ++ [[]]) m ml (Some (e, e)) with
       | None => None
       | Some true => Some (Some e)
-      | Some false => static_get m es' q
+      | Some false => static_get m ml es' q
       end
   end.
 
@@ -194,7 +195,7 @@ Fixpoint static_acn (c : tcfg) (ls : name) (w : ws) : wres :=
   match ls with
   | [] => write_root c w
   | l :: rest =>
-      match static_get (w_buf w) (w_static w) ls with
+      match static_get (w_buf w) (mlen (w_buf w)) (w_static w) ls with
       | None => WFuel
       | Some (Some pos) => write_ptr c static_ptr_tag pos w
       | Some None =>
@@ -247,34 +248,34 @@ Fixpoint tree_acn (c : tcfg) (ls : name) (w : ws) : wres :=
 (* --------------------------------------------------------- HashCompressor *)
 
 (* HashEntry::head: Label::split_from(&message[head..]).expect(..).0 *)
-Definition label_at (m : bytes) (h : N) : option label :=
+Definition label_at (m : bytes) (ml : N) (h : N) : option label :=
   match get m h with
   | None => None
-  | Some b => if (b <=? 63) && (h + 1 + b <=? mlen m) then Some (slice m (h + 1) (h + 1 + b)) else None
+  | Some b => if (b <=? 63) && (h + 1 + b <=? ml) then Some (slice m (h + 1) (h + 1 + b)) else None
   end.
 
 (* HashTable::find(hash, |e| e.eq(message, (label, position))): the model
    tests the entries in list order (every entry, not only those in the probed
    bucket); an unreadable head is the panic of HashEntry::head. *)
-Fixpoint hash_find (m : bytes) (es : list (N * N)) (l : label) (pos : N) : outcome (option N) :=
+Fixpoint hash_find (m : bytes) (ml : N) (es : list (N * N)) (l : label) (pos : N) : outcome (option N) :=
   match es with
   | [] => Ok None
   | (h, t) :: es' =>
-      match label_at m h with
+      match label_at m ml h with
       | None => Panic P_HASH_HEAD
-      | Some hl => if label_eq hl l && (t =? pos) then Ok (Some h) else hash_find m es' l pos
+      | Some hl => if label_eq hl l && (t =? pos) then Ok (Some h) else hash_find m ml es' l pos
       end
   end.
 
 (* right-to-left walk: rl = the not yet consumed labels, rightmost first.
    Returns the position reached and the unconsumed labels (rightmost first). *)
-Fixpoint hash_walk (m : bytes) (es : list (N * N)) (rl : list label) (pos : N)
+Fixpoint hash_walk (m : bytes) (ml : N) (es : list (N * N)) (rl : list label) (pos : N)
   : outcome (N * list label) :=
   match rl with
   | [] => Ok (pos, [])
   | l :: rl' =>
-      match hash_find m es l pos with
-      | Ok (Some h) => hash_walk m es rl' h
+      match hash_find m ml es l pos with
+      | Ok (Some h) => hash_walk m ml es rl' h
       | Ok None => Ok (pos, rl)
       | Err e => Err e | Panic s => Panic s | OutOfFuel => OutOfFuel
       end
@@ -294,7 +295,7 @@ Fixpoint hash_write (c : tcfg) (ls : list label) (position : N) (w : ws) : wres 
   end.
 
 Definition hash_acn (c : tcfg) (ls : name) (w : ws) : wres :=
-  match hash_walk (w_buf w) (w_hash w) (rev ls) hash_root_pos with
+  match hash_walk (w_buf w) (mlen (w_buf w)) (w_hash w) (rev ls) hash_root_pos with
   | Ok (position, rest) =>
       wbind (hash_write c (rev rest) position w) (fun w1 =>
         if position =? hash_root_pos then write_root c w1
